@@ -4,7 +4,7 @@
    function alone (every intermediate real value inside the domain of the operation applied to it).
    fused multiply-add and iterator sums / products are, by the theorems of C08, equal to the operator compositions they abbreviate, so a program
    using them is a program of this syntax.  Only `exact` proofs here. *)
-From ND Require Import Tactics C02_proofs C01_towers C01_faa C07_proofs C09_proofs Prog Agree C04_inst C04_nested C03_proofs C03_second C03_third C03_mixed C03_mixed3.
+From ND Require Import Tactics C02_proofs C01_towers C01_faa C07_proofs C09_proofs Prog Agree C04_inst C04_nested C03_proofs C03_second C03_third C03_mixed C03_mixed3 C03_unique.
 Local Open Scope R_scope.
 
 (* the first-order type: the eps part is the derivative (Coquelicot is_derive) of the real function the program computes, along the input curves *)
@@ -133,13 +133,35 @@ Theorem C03_third_partial_program : forall p x y z, okR (x :: y :: z :: nil) p -
        (eval (mkHyperHyperDual x 1 0 0 0 0 0 0 :: mkHyperHyperDual y 0 1 0 0 0 0 0 :: mkHyperHyperDual z 0 0 1 0 0 0 0 :: nil) p).
 Proof. exact third_partial_program. Qed.
 
+(* the derivative parts depend on the real function alone: two programs that compute the same real function near the real parts of the arguments
+   (same_near: on a box of some positive half-width around them) have IDENTICAL evaluations, for ARBITRARY arguments of the five scalar types --
+   whatever their syntax.  (Each representation predicate determines the number it describes, and every number is represented by a polynomial family.) *)
+Theorem C03_same_near_meaning : forall p q base, same_near p q base <->
+  exists d, 0 < d /\ forall env, Forall2 (fun a r => r - d < a < r + d) env base -> eval (T:=R) env p = eval (T:=R) env q.
+Proof. exact (fun p q base => conj (fun H => H) (fun H => H)). Qed.
+Theorem C03_denotational_Dual : forall p q (envD : list (Dual R)), okR (map Dual_f_re envD) p -> okR (map Dual_f_re envD) q ->
+  same_near p q (map Dual_f_re envD) -> eval envD p = eval envD q.
+Proof. exact denot_Dual. Qed.
+Theorem C03_denotational_Dual2 : forall p q (envD : list (Dual2 R)), okR (map Dual2_f_re envD) p -> okR (map Dual2_f_re envD) q ->
+  same_near p q (map Dual2_f_re envD) -> eval envD p = eval envD q.
+Proof. exact denot_Dual2. Qed.
+Theorem C03_denotational_Dual3 : forall p q (envD : list (Dual3 R)), okR (map Dual3_f_re envD) p -> okR (map Dual3_f_re envD) q ->
+  same_near p q (map Dual3_f_re envD) -> eval envD p = eval envD q.
+Proof. exact denot_Dual3. Qed.
+Theorem C03_denotational_HyperDual : forall p q (envD : list (HyperDual R)), okR (map HyperDual_f_re envD) p -> okR (map HyperDual_f_re envD) q ->
+  same_near p q (map HyperDual_f_re envD) -> eval envD p = eval envD q.
+Proof. exact denot_HyperDual. Qed.
+Theorem C03_denotational_HyperHyperDual : forall p q (envD : list (HyperHyperDual R)), okR (map HyperHyperDual_f_re envD) p -> okR (map HyperHyperDual_f_re envD) q ->
+  same_near p q (map HyperHyperDual_f_re envD) -> eval envD p = eval envD q.
+Proof. exact denot_HyperHyperDual. Qed.
+
 (* non-vacuity: exp(x) / (x*y + 3) at (1, 2) satisfies the domain condition, with seeds along the first variable *)
 Example C03_example :
   let p := PBin B_div (PUn U_exp (PVar 0)) (PScal B_add (PBin B_mul (PVar 0) (PVar 1)) 3) in
   okR (at_t ((fun t => t) :: (fun _ => 2) :: nil) 1) p /\ Forall2 (Rep1 1) ((fun t => t) :: (fun _ => 2) :: nil) (mkDual 1 1 :: mkDual 2 0 :: nil).
 Proof. exact example_ok. Qed.
 
-Definition C03_bundle := (C03_first_order, C03_first_derivative_program, C03_second_order, C03_second_derivative_program, C03_third_order, C03_third_derivative_program, C03_mixed_second_order, C03_second_partial_program, C03_hhd_is_dual_over_hyperdual, C03_RepT_meaning, C03_mixed_third_order, C03_third_partial_program, C03_directional_Dual, C03_directional_Dual2, C03_directional_Dual3,
+Definition C03_bundle := (C03_first_order, C03_first_derivative_program, C03_second_order, C03_second_derivative_program, C03_third_order, C03_third_derivative_program, C03_mixed_second_order, C03_second_partial_program, C03_hhd_is_dual_over_hyperdual, C03_RepT_meaning, C03_mixed_third_order, C03_third_partial_program, C03_same_near_meaning, C03_denotational_Dual, C03_denotational_Dual2, C03_denotational_Dual3, C03_denotational_HyperDual, C03_denotational_HyperHyperDual, C03_directional_Dual, C03_directional_Dual2, C03_directional_Dual3,
   C03_directional_HyperDual, C03_directional_HyperHyperDual, C03_directional_DualVec, C03_directional_Dual2Vec, C03_directional_HyperDualVec,
   C03_directional_DD, C03_directional_DDD).
 Print Assumptions C03_bundle.
